@@ -18,6 +18,7 @@ import Vita.C19.LemmasStrip
 import Vita.C19.LemmasNum
 import Vita.C19.LemmasGenome
 import Vita.C19.LemmasStream
+import Vita.C19.LemmasExact
 import Vita.C19.GenExport
 namespace Vita.C19
 
@@ -231,6 +232,34 @@ theorem export_genome_denotes (fns : List FnSym) (tms : List TmSym) (f : Fmt)
 theorem team_export_lines (ms : List (List Ch)) (h : ∀ m ∈ ms, 10 ∉ m) :
     splitLines (teamG ms) = ms :=
   splitLines_teamG ms h
+
+/-! ### numeric constants: what `std::to_string(double)` prints, read back -/
+
+/-- `to_string_double_reads_back`: for EVERY finite double the text `std::to_string` prints is
+    `[-]digits.dddddd` and denotes (sign bit, `scaled6 bits` millionths) – the value rounded
+    half-even to 6 decimals. -/
+theorem to_string_double_reads_back (bits : Nat) (hfin : bits / 2 ^ 52 % 2048 ≠ 2047) :
+    readSigned6 (fmtF64 bits) = some (decide (bits / 2 ^ 63 % 2 = 1), scaled6 bits) :=
+  fmtF64_reads_back bits hfin
+
+/-- `constants_print_exactly`: the class "constants print exactly" (`exact6`: finite, and
+    mantissa·10⁶ divisible by 2^(-exponent) when the exponent is negative) is exactly right: for
+    such a constant the printed text denotes the constant itself – the millionths read back are
+    mantissa·2^exponent·10⁶, nothing was rounded away. -/
+theorem constants_print_exactly (bits : Nat) (h : exact6 bits = true) :
+    readSigned6 (fmtF64 bits) = some (decide (bits / 2 ^ 63 % 2 = 1), scaled6 bits) ∧
+    (0 ≤ f64Exp bits → scaled6 bits = f64Mant bits * 2 ^ (f64Exp bits).toNat * 1000000) ∧
+    (f64Exp bits < 0 → scaled6 bits * 2 ^ (-(f64Exp bits)).toNat = f64Mant bits * 1000000) := by
+  have hfin : bits / 2 ^ 52 % 2048 ≠ 2047 := by
+    simp only [exact6, Bool.and_eq_true, decide_eq_true_eq] at h
+    exact h.1
+  exact ⟨fmtF64_reads_back bits hfin, exact6_value bits h⟩
+
+/-- 2.5 and -0.015625 (= -1/64) print exactly, 0.1 does not (0.100000 ≠ 0.1000000000000000055…) -/
+example : exact6 0x4004000000000000 = true ∧ exact6 0xBF90000000000000 = true ∧
+    exact6 0x3FB999999999999A = false := by decide
+
+example : readSigned6 (fmtF64 0xBF90000000000000) = some (true, 15625) := by decide
 
 /-! ### format selection: manipulator -> iword slot -> operator<< -> language(format) -/
 
